@@ -142,6 +142,16 @@ pub fn eval(out: &mut Out, op: &str, args: &[&str]) -> Option<String> {
             }
             Some(b(r))
         }
+        // transitivity on one triple (the property claims it): "false" only when both premises hold and the conclusion fails
+        "sub.trans" => {
+            let t1 = sexp::to_ty(&sexp::parse(args.get(1)?)?)?;
+            let t2 = sexp::to_ty(&sexp::parse(args.get(2)?)?)?;
+            let t3 = sexp::to_ty(&sexp::parse(args.get(3)?)?)?;
+            Some(match (sub_fresh(&env, &t1, &t2), sub_fresh(&env, &t2, &t3), sub_fresh(&env, &t1, &t3)) {
+                (Ok(a), Ok(b2), Ok(c)) => (if a && b2 && !c { "false" } else { "true" }).into(),
+                _ => "panic".into(),
+            })
+        }
         "sub.seq" => {
             let ts = sexp::to_tys(&sexp::parse(args.get(1)?)?)?;
             let r = guarded(move || {
@@ -227,6 +237,28 @@ pub fn run(ctx: &mut Ctx) {
             "all ordered pairs of the {} types of depth <= 1 over {{nat,int,null,reserved,empty,bool,A,B}} x {{opt,vec,record,variant}} in sampled two-definition environments (thorough: every pair; quick: one third)",
             tys.len()
         ));
+    }
+    // 1b. transitivity over the same small types: every triple (thorough) or a sample (quick), in a few environments
+    {
+        let names = ["A", "B"];
+        let tys = small_types(&names);
+        let defs: Vec<Type> = tys.iter().filter(|t| !matches!(t.as_ref(), TypeInner::Var(_))).cloned().collect();
+        let n_env = if ctx.thorough { 6 } else { 2 };
+        for _ in 0..n_env {
+            let mut env = TypeEnv::new();
+            env.0.insert("A".into(), ctx.rng.pick(&defs).clone());
+            env.0.insert("B".into(), ctx.rng.pick(&defs).clone());
+            let e = sexp::env(&env);
+            for t1 in &tys {
+                for t2 in &tys {
+                    for t3 in &tys {
+                        if ctx.thorough || ctx.rng.chance(1, 40) {
+                            ctx.emit(&format!("sub.trans\t{e}\t{}\t{}\t{}", sexp::ty(t1), sexp::ty(t2), sexp::ty(t3)), t1 != t2 && t2 != t3);
+                        }
+                    }
+                }
+            }
+        }
     }
     // 2. random recursive environments, related pairs by upgrade steps
     let n = if ctx.thorough { 60_000 } else { 2_500 };
